@@ -374,7 +374,12 @@ class Runner:
         res.gb = gb1
         return gb1
 
+    # constant-bound loops of the two caches (16 slots / 16 header blocks): always unwound completely
+    CACHE_LOOPS = {"m4ri_mmc_malloc.0": 17, "m4ri_mmc_free.0": 17, "m4ri_mmc_cleanup.0": 17, "mzd_t_malloc.0": 18, "mzd_t_free.0": 18}
+
     def cbmc_cmd(self, g: Group, gb: str, unwindset: Dict[str, int], extra: List[str] = ()):
+        if g.unwind is not None and g.unwind < 18:
+            unwindset = dict(self.CACHE_LOOPS, **unwindset)
         cmd = ["cbmc", gb, "--json-ui"]
         if not g.malloc_may_fail:
             cmd.append("--no-malloc-may-fail")
